@@ -53,13 +53,13 @@ class ensure_ast""", new="""        uses = list(self.fields['root'].find_all("Na
 class ensure_ast""")]),
     dict(name='ensure_import-not-negated', kind='mutant', rule='R5', key='ensure_import',
          edits=[dict(file=STATIC, old="        return not has_import(ast, name)", new="        return has_import(ast, name)")]),
-    dict(name='num-includes-bool', kind='mutant', rule='R6', key='[Num](True)',
+    dict(name='num-includes-bool', kind='mutant', rule='R6', key="find_all('Num')",
          edits=[dict(file=NODE, old="isinstance(node.value, (int, float)) and not isinstance(node.value, bool):",
                      new="isinstance(node.value, (int, float)):")]),
     dict(name='str-also-bytes', kind='mutant', rule='R6', key="find_all('Str')",
          edits=[dict(file=NODE, old="actual_node == 'Str' and isinstance(node.value, str)",
                      new="actual_node == 'Str' and isinstance(node.value, (str, bytes))")]),
-    dict(name='revert-fix-typed-equality', kind='mutant', rule='R7', key='primitive_compare',
+    dict(name='revert-fix-typed-equality', kind='mutant', rule='R7', key='pattern literal 1 against student literal True',
          edits=[dict(file=MATCH, old="""                        is_match = (type(inssub_value) is type(stdsub_value) and
                                     inssub_value == stdsub_value)""",
                      new="""                        is_match = inssub_value == stdsub_value""")]),
